@@ -57,11 +57,89 @@ class Report:
         self.extra.setdefault("controls", []).append({"rule": rule, "fired": bool(fired), "what": what})
 
 
+class Shared:
+    """View of a Report under which another property's rule functions report: rule ids are renamed (`mapping`: old id ->
+    new id; ids not in the mapping are dropped unless `default` is given), descriptions get a "(shared with ...)" suffix.
+    Known findings of the lending property apply to the borrowed instances too (`lender`): an instance whose (old rule, key)
+    is a known finding of the lender is recorded as ok here - it is that property's finding, reported there."""
+
+    def __init__(self, rep, mapping, lender=None, default=None, only_keys=None):
+        self.rep, self.mapping, self.default = rep, mapping, default
+        self.only_keys = only_keys
+        self.extra = rep.extra
+        self.notes = rep.notes
+        self.samples = rep.samples
+        self.machinery_errors = rep.machinery_errors
+        self.prop = rep.prop
+        known = load_known()
+        self.lender_known = {(f["rule"], f["key"]) for f in known.get("findings", []) if lender and f["property"] == lender}
+
+    def _id(self, rid):
+        return self.mapping.get(rid, self.default)
+
+    def rule(self, rid, desc, floor=None):
+        n = self._id(rid)
+        if n:
+            prev = self.rep.rules.get(n)
+            self.rep.rule(n, (prev + " | " if prev else "") + desc + " [analysis shared with %s]" % rid, None)
+
+    def _keep(self, key):
+        return self.only_keys is None or any(key.startswith(k) or k in key for k in self.only_keys)
+
+    def ok(self, rule, key, where, msg=""):
+        n = self._id(rule)
+        if n and self._keep(key):
+            self.rep.ok(n, key, where, msg)
+
+    def bad(self, rule, key, where, msg, status="violation"):
+        n = self._id(rule)
+        if n and self._keep(key):
+            if (rule, key) in self.lender_known:
+                self.rep.ok(n, key, where, "recorded as a known finding of %s (%s)" % (rule[:3], key))
+            else:
+                self.rep.bad(n, key, where, msg, status)
+
+    def unrecognised(self, rule, key, where, msg):
+        self.bad(rule, key, where, "unrecognised idiom (fail closed): " + msg, status="unrecognised")
+
+    def check(self, cond, rule, key, where, msg_ok="", msg_bad=""):
+        if cond:
+            self.ok(rule, key, where, msg_ok)
+        else:
+            self.bad(rule, key, where, msg_bad or msg_ok)
+        return cond
+
+    def note(self, s):
+        self.rep.note(s)
+
+    def count(self, rule):
+        n = self._id(rule)
+        return self.rep.count(n) if n else 0
+
+    def control(self, rule, fired, what):
+        self.rep.control(self._id(rule) or rule, fired, what)
+
+    @property
+    def instances(self):
+        return self.rep.instances
+
+
 def load_known():
     if not os.path.exists(KNOWN):
         return {"findings": [], "fixed": []}
     with open(KNOWN) as fh:
         return json.load(fh)
+
+
+def pending_alarms(rep):
+    """instances (incl. floor shortfalls) that finalize() would report as violations; does not modify rep"""
+    known = load_known()
+    kf = {(f["rule"], f["key"]) for f in known.get("findings", []) if f["property"] == rep.prop}
+    out = [i for i in rep.instances if i["status"] != "ok" and (i["rule"], i["key"]) not in kf]
+    for rid, floor in rep.floors.items():
+        if rep.count(rid) < floor:
+            out.append({"rule": rid, "key": "floor", "status": "unrecognised"})
+    return out
 
 
 def finalize(rep, tier, seed, level, explanation, trusted_base, assumptions, checker_cmd, not_decided=None):
